@@ -481,7 +481,7 @@ Plan gen_crash(uint64_t seed, const string &prop) {
     else { o.kind = O_GET; char kb[48]; snprintf(kb, sizeof kb, "w%d/k%03d", o.tid, (int)r.below(nkeys)); o.key = kb; }
     p.ops.push_back(o);
   }
-  p.seti("max_boundaries", c13 ? (g_thorough ? 300 : 100) : g_thorough ? 1500 : sizeclass < 4 ? 400 : 260);
+  p.seti("max_boundaries", bigc ? (g_thorough ? 300 : 70) : c13 ? (g_thorough ? 300 : 100) : g_thorough ? 1500 : sizeclass < 4 ? 400 : 260);
   return p;
 }
 
